@@ -28,6 +28,7 @@ func init() {
 			runLiveSettings(c, "C18-LIVE")
 			base(c, "DECLARED", "STATE", "ALIAS", "TEXT", "MAT", "RULESRC", "EXPORT", "ZEROSKIP")
 			importRules(c, "C03", runC03, "C18-REQUIRED", "the built-in required has the same notion of 'missing' in every walker: a clause exactly when the value is zero or an empty collection (rule C03-REQ) — a walker that also treats e.g. blank strings as missing disagrees with its siblings on the same scalar", 4, ruleIn("C03-REQ"))
+			importRules(c, "C14", runC14Set, "C18-RULETEXT", "a rule given programmatically (Var, Map, Url and rule overrides all go through RM.Set) is the text the caller wrote, as a struct tag is: RM.Set stores the joined rules unchanged (rule C14-SET) — a setter that trims, de-duplicates or rewrites rule text makes the same rule string judge differently through the struct tag and through the other entry points", 1, nil)
 			importRules(c, "C02", runC02Loop, "C18-LOOP", "every walker evaluates every rule item of a field: its rule loop leaves only through its header (rule C02-LOOP) — a walker that stops early at some item disagrees with its siblings on the rules after it", 4, nil)
 		},
 	})
@@ -309,6 +310,10 @@ func runC18(c *Ctx) {
 					continue
 				}
 				pos = dl[d]
+				if strings.HasPrefix(d, "<") {
+					extra = append(extra, fmt.Sprintf("%s: the percent-decoded text is handed to %s, which cuts it at '#', '?', ';' and friends: a value that contains one of them in encoded form (%%23, %%3F, …) is cut there and every parameter behind it is lost or misjudged", p.Pos(dl[d]), strings.Trim(d, "<>")))
+					continue
+				}
 				extra = append(extra, fmt.Sprintf("%s: the percent-decoded text is searched for %q: a value that contains this character in encoded form (%s) is cut there and every parameter behind it is lost or misjudged", p.Pos(dl[d]), d, encodedForm(d)))
 			}
 			c.Sites++
